@@ -31,7 +31,8 @@ PROBES = ["pred_chunk_lacks_fold", "one_row_last_chunk", "spectrum_split_across_
           "multi_file", "order_sensitive_learner", "sklearn_learner", "merge_chunk_small", "protein_level",
           "pep_files_compared_strictly", "pep_files_checked_for_shape_only", "feature_with_missing_values", "ensemble_mode", "proba_only_learner",
           "spectrum_key_with_missing_values", "parquet_dictionary_typed_strings", "parquet_written_from_sliced_frame", "text_feature_starts_with_whole_numbers", "train_set_blocks>=2",
-          "parquet_missing_values_stored_as_nan", "identifier_slice_holds_only_the_feature_with_missing_values"]
+          "parquet_missing_values_stored_as_nan", "identifier_slice_holds_only_the_feature_with_missing_values",
+          "whole_number_spectrum_key_in_one_row_last_chunk"]
 RULE = (
     "Each scenario = one seeded tie-free data set + configuration (learner, folds, seeds, rollup/decoy/dedup "
     "switches) executed as reference (text, knobs > file, 1 worker, no threads) and as perturbed execution "
@@ -137,6 +138,12 @@ def make_scenario(seed):
         # %g-style text: whole numbers without a decimal point, and a feature that starts with whole numbers
         cfg["g_format"] = True
         dp["whole_head"] = {"idx": rng.randrange(8), "rows": rng.choice([2, 3, 5])}
+    r_wk = random.Random(f"wholekey|{seed}")
+    if (cfg.get("g_format") and fmt == "pin" and dp["max_per_spectrum"] > 1 and not dp.get("nan_key")
+            and any(c in dp["spec_extra"] for c in ("ExpMass", "ret_time")) and r_wk.random() < 0.7):
+        # a spectrum whose numeric key columns hold whole numbers, one of its PSMs alone in the last confidence chunk
+        dp["whole_key_tail"] = r_wk.randint(1, 1000)
+        kn["CONFIDENCE_CHUNK_SIZE"] = max(1, sizes[0] - 1)
     if "ExpMass" in dp["spec_extra"] and dp["max_per_spectrum"] > 1 and rng.random() < 0.4:
         dp["nan_key"] = rng.choice([0.1, 0.25])  # some spectra lack the measured mass (a missing value in the spectrum key)
     if rng.random() < 0.25 and cfg["conf"]["rollup"]:
@@ -373,6 +380,7 @@ def run_scenario(scn, workdir):
         "text_feature_starts_with_whole_numbers": int(bool(scn["data"].get("whole_head"))),
         "ensemble_mode": int(bool(cfg.get("ensemble"))),
         "train_set_blocks>=2": int(kn.get("TRAIN_SETS_BLOCK_SIZE", 10**9) < nmax),
+        "whole_number_spectrum_key_in_one_row_last_chunk": int(bool(scn["data"].get("whole_key_tail")) and pert["format"] == "pin"),
         "identifier_slice_holds_only_the_feature_with_missing_values": int(_id_slice_only_nan(scn["data"], kn, n_rows)),
         "parquet_missing_values_stored_as_nan": int(bool(pert.get("nan_values")) and bool(scn["data"].get("nan_feature") or scn["data"].get("nan_key"))),
     }
